@@ -4,6 +4,7 @@ mod caps;
 mod det;
 mod drive;
 mod dsl;
+mod exp;
 mod legacy;
 mod mt;
 mod sched;
@@ -135,6 +136,7 @@ fn main() {
             }
             w.flush().unwrap();
         }
+        Some("exp") => exp::flat(),
         Some("mtstress") => {
             // mtstress <scenario> <threads> <iterations> <out.ndjson>
             let r = mt::run_stress(&args[2], args[3].parse().unwrap(), args[4].parse().unwrap());
